@@ -13,6 +13,7 @@ RULES = {
     "C13.R3": "inference effects: no external write effect is reachable from forward/qforward/qweight, any aten handler or library implementation (reasoned exemptions: copy_ handler, Extension.lib)",
     "C13.R4": "quantization effects: in the closure of quantize_weight/quantize_activation/freeze/quantize no in-place tensor operation targets a value that is not freshly allocated",
     "C13.R6": "a module's outputs do not give write access to its buffers: the scale handed to quantize_activation in forward / qforward is stored in the returned tensor as it is (C01.R2), so passing the registered buffer itself makes every in-place write on an output's scale (the copy_ handler does one) a write on the module's state",
+    "C13.R8": "(= C10.R11, buffer clause) every value written to the input_scale / output_scale buffers is a freshly computed tensor, never a reference to or a view of a tensor another object owns: an in-place operation on that object (written back since 683c0c3) would otherwise rewrite the buffer outside any Calibration context",
     "C13.R7": "(= C05.R18 (a), value handlers) the result of a handler that is not a view owns its scale and its payload, so an in-place operation on a result never rewrites the quantized input or cached activation it was computed from",
     "C13.R5": "disable_extensions restores the switch in a finally that encloses the yield",
 }
@@ -46,6 +47,10 @@ def run(chk):
         from . import c05
         from ..report import AliasedCheck
         c05.ownership_rule(AliasedCheck(chk, {"C05.R18": "C13.R7"}), handlers(chk.repo), "C05.R18", views=False)
+        # what calibration stores in a scale buffer is a tensor of the module's own: a buffer that shares storage with a tensor the caller keeps
+        # (`input._scale.detach()`) is rewritten by every later in-place op on that tensor, outside any Calibration context
+        from . import c10
+        c10.owned_tensors(AliasedCheck(chk, {"C10.R11": "C13.R8"}))
     chk.assume("torch functional calls do not mutate their arguments except through trailing-underscore methods and out=",
                "RemovableHandle.remove() and TorchFunctionMode.__exit__ restore torch's own registries (torch bookkeeping trusted)")
 
